@@ -15,6 +15,8 @@ FLOW = {"name": "flow", "pkg": "pkg/verifflow", "harness": "flow", "run": "^Test
 
 V1_POINTS = ["pkg/lifecycle/stream/destination.go", "pkg/lifecycle/stream/destination_acker.go", "pkg/lifecycle/stream/source_acker.go"]
 V2_POINTS = ["pkg/lifecycle-poc/funnel/destination.go"]
+# the per-source workers of the funnel engine and the shared tail they serialise on
+V2_WORKER_POINTS = ["pkg/lifecycle-poc/funnel/worker.go", "pkg/lifecycle-poc/funnel/destination.go", "pkg/lifecycle-poc/funnel/source.go"]
 PREEMPT = {"name": "flow-preempt", "pkg": "pkg/verifflow", "harness": "flow", "run": "^TestVerifFlowPreempt$", "instrument": True,
            "shards": 16, "shards_thorough": 16, "points": V1_POINTS + V2_POINTS, "gomaxprocs": 1}
 
@@ -24,10 +26,10 @@ def preempt(points):
     return d
 
 CHECKS = {
-    "C01": {"parts": [FLOW, preempt(V1_POINTS + ["pkg/lifecycle/stream/fanout.go"])]},
+    "C01": {"parts": [FLOW, preempt(V1_POINTS + ["pkg/lifecycle/stream/fanout.go"] + V2_WORKER_POINTS)]},
     "C02": {"parts": [FLOW, preempt(["pkg/connector/source.go", "pkg/connector/persister.go"])]},
     "C03": {"parts": [FLOW]},
-    "C04": {"parts": [FLOW, preempt(V1_POINTS + ["pkg/lifecycle/stream/fanout.go"])]},
+    "C04": {"parts": [FLOW, preempt(V1_POINTS + ["pkg/lifecycle/stream/fanout.go"] + V2_WORKER_POINTS)]},
     "C06": {"parts": [FLOW, preempt(V1_POINTS + V2_POINTS + ["pkg/connector/source.go", "pkg/connector/persister.go"])]},
     "C07": {"rule": "window arithmetic: every window size and threshold 0..5 (0..6 thorough) x every outcome sequence up to length 10/9 (14/12) x every batch partition (v2) on the real dlqWindow of both engines and, through the exported handlers, sizes 0..3 (0..5) x length 7 (10) against one reference; routing: schedules of the scripted plugins on the real full stack",
             "parts": [FLOW,
@@ -43,10 +45,10 @@ CHECKS = {
     "C09": {"rule": "conditional processor: inputs<=4 x all match patterns x output length 0..kept+1 x kind vectors x slice capacity; sandbox: plugin behaviours x context states; reply shapes of processors, destinations and sources explored as answers of the scripted plugins on the real full stack",
             "parts": [{"name": "condmerge", "pkg": "pkg/verifc09", "harness": "c09cond", "run": "^TestVerifC09Cond$"},
                       {"name": "sandbox", "pkg": "pkg/plugin/connector/builtin", "harness": "c09sandbox", "run": "^TestVerifC09Sandbox$", "instrument": True},
-                      FLOW]},
+                      FLOW, preempt(V1_POINTS + V2_POINTS)]},
     "C08": {"rule": "input enumeration: batch size <=3 x per-record result kinds {pass, filter, error, split2, short-once} at stage 1 x {pass, filter, error} at stage 2 x 1-2 destinations x every single rejected piece; one default-schedule execution of the real full stack per input, compared with a reference interpreter",
             "parts": [{"name": "accounting", "pkg": "pkg/verifflow", "harness": "flow", "run": "^TestVerifC08$", "instrument": True, "shards": 16, "shards_thorough": 16}]},
-    "C05": {"parts": [FLOW]},
+    "C05": {"parts": [FLOW, preempt(V2_WORKER_POINTS)]},
     "C14": {
         "rule": "explicit-state BFS: state = API operation history on fresh real orchestrator+services; alphabet = create/update/delete/start/stop of pipelines, connectors, processors with valid and invalid arguments, and for every call the variant where its k-th store write/commit fails (every k); distinct = canonical dump (ids renamed by creation order, timestamps dropped)",
         "parts": [
